@@ -99,7 +99,11 @@ def synthetic_setup(rng, ncat=6, multi_label=True):
     def unary(x):
         return list(utable.get(x, []))
     unary.self_loops = any(r.cat == x for x, rs in utable.items() for r in rs)
-    return cats, roots, (lambda x, y: list(table.get((x, y), []))), unary
+
+    def binary(x, y):
+        return list(table.get((x, y), []))
+    binary.wide = any(len(rs) > 50 for rs in table.values())
+    return cats, roots, binary, unary
 
 
 def run(sents, cats, roots, binary, unary, record=True, **kw):
